@@ -1370,6 +1370,53 @@ func (r *Result) noteReturn(f *ssa.Function, ret *ssa.Return, st state) {
 	}
 }
 
+// TransferConsistent: the locks a helper holds at this return are ones its callers are told about:
+// held at every successful return (and, for a failing return, at every failing one too). A lock
+// held at one return and released at its siblings is passed on to nobody: it is a leak of the
+// helper itself.
+func (r *Result) TransferConsistent(l Leak) bool {
+	sm := r.sums[l.Fn]
+	if sm == nil {
+		return false
+	}
+	in := func(set []Lock, h Lock) bool {
+		for _, x := range set {
+			if x.Class == h.Class && x.Mode == h.Mode {
+				return true
+			}
+		}
+		return false
+	}
+	failing := false
+	if n := len(l.Ret.Results); n > 0 {
+		last := l.Ret.Results[n-1]
+		if types.Identical(last.Type(), types.Universe.Lookup("error").Type()) && !ssax.IsNilConst(last) {
+			failing = true
+		}
+	}
+	for _, h := range l.Held {
+		if sm.tryLike != nil && sm.tryLike.Class == h.Class {
+			continue
+		}
+		isUnlocker := false
+		for _, u := range sm.unlocker {
+			if u.Class == h.Class {
+				isUnlocker = true
+			}
+		}
+		if isUnlocker {
+			continue
+		}
+		switch {
+		case !failing && in(sm.held, h):
+		case failing && in(sm.heldFail, h) && (sm.nOK == 0 || in(sm.held, h)):
+		default:
+			return false
+		}
+	}
+	return true
+}
+
 // errResultOf: the error result value of a call (the last result), if it has one.
 func errResultOf(site ssa.CallInstruction) ssa.Value {
 	v := site.Value()
